@@ -131,6 +131,10 @@ func Inputs(rng *rand.Rand, n *Node, count, maxLen int) [][]rune {
 				s = append(s, alpha[rng.Intn(len(alpha))])
 			}
 		}
+		// the input ends inside (or right at the end of) a would-be match
+		if len(s) > 1 && rng.Intn(4) == 0 {
+			s = s[:1+rng.Intn(len(s)-1)]
+		}
 		// near-miss mutations
 		for m := rng.Intn(3); m > 0 && len(s) > 0; m-- {
 			i := rng.Intn(len(s))
